@@ -5,5 +5,6 @@ CONSTANTS
   FlushAtomic = TRUE
   LatchChecked = FALSE
   CloseLatches = TRUE
+  TimeoutReleases = FALSE
 INVARIANTS TypeOK WholeFrames InOrder AfterClose
 CHECK_DEADLOCK FALSE
